@@ -19,7 +19,7 @@ from ..common import Verdict, use_repo, child_env, SEED, BUILD, PY, VERIF, ensur
 from . import c02
 
 TIERS = {'quick': ['order1', 'tz2', 'mixed2', 'mixed3'], 'thorough': ['order1', 'order2', 'mixed2', 'mixed3', 'dates3', 'tz3']}
-RANDOM_VALUES = {'quick': 1500, 'thorough': 30000}
+RANDOM_VALUES = {'quick': 1500, 'thorough': 20000}
 VARIANTS = {'quick': [0, 1], 'thorough': [0, 1, 2]}
 INVARIANTS = ['SortDeterminism', 'InsertionOrder', 'FixedPoint', 'AnchorsOfDocumentAlone', 'AnchorsWellFormed']
 
@@ -34,10 +34,13 @@ def recipes_of(states, extra):
         # the same value again under another option set (allow_unicode and width changed), dumped before or after
         # the first one depending on the interpreter: the text for (value, options) must not depend on that history
         twin = dict(sets[0], allow_unicode=True, width=20)
-        for opts in sets + [twin]:
+        if extra.get('twin_every', 1) > 1 and rseed % extra['twin_every']:
+            twin = None                                     # thorough: a twin for every second state
+        for opts in sets + ([twin] if twin else []):
             out.append({'kind': 'state', 'config': name, 'heap': st['heap'], 'root': st['root'], 'rseed': rseed,
                         'opts': U.opts_json(opts), 'sortdet': st['lres']['sortdet'], 'alias': any(e['k'] == 'alias' for e in st['lres']['ev'])})
-        out[-1]['light'] = True
+        if twin:
+            out[-1]['light'] = True
     return out
 
 
@@ -238,7 +241,7 @@ def main(tier, replay=None):
             states += r.distinct
             trans += r.generated
             n = 0
-            for part in mbt.pmap(recipes_of, r.dump, {'config': name, 'extra_opts': 0.25}):
+            for part in mbt.pmap(recipes_of, r.dump, {'config': name, 'extra_opts': 0.25, 'twin_every': 1 if tier == 'quick' else 2}):
                 for x in part:
                     if isinstance(x, str):
                         n += 1
